@@ -58,6 +58,8 @@ func main() {
 	}
 	runLockset(f, res, drv, tbl)
 	runAppendTie(f, res, drv)
+	runSyncTie(f, res, drv)
+	runRacyTie(f, res, drv, tbl)
 	drv.Close()
 	runRace(f, res, tbl)
 	if err := res.Write(f.Out); err != nil {
@@ -629,6 +631,24 @@ func replay(f lib.Flags) int {
 		}
 		fmt.Println("replay: unknown scenario", name)
 		return 2
+	case "sync":
+		r := newRealSync()
+		for _, tok := range strings.Fields(fmt.Sprint(in["events"])) {
+			e, ok := parseSyncEv(tok)
+			if !ok {
+				fmt.Println("replay: malformed event", tok)
+				return 2
+			}
+			if !r.step(e) {
+				break
+			}
+		}
+		if r.broken != "" {
+			fmt.Println("STILL FAILS C11/sync/rwmutex-exclusion:", r.broken)
+			return 1
+		}
+		fmt.Println("replay: mutual exclusion holds along the sequence")
+		return 0
 	}
 	b, _ := json.Marshal(in)
 	fmt.Println("replay: unknown input kind", string(b))
